@@ -43,7 +43,10 @@ def gen_sup(rnd, case):
         v = 't%d' % i
         nodes.append(v)
         edges.append([u, v])
-    return {'nodes': nodes, 'edges': edges, 'start': ['s0'], 'sel': sel}
+    order = [c['key'] for c in sel]
+    if rnd.random() < .6:
+        rnd.shuffle(order)     # mappings need not be registered parents-first
+    return {'nodes': nodes, 'edges': edges, 'start': ['s0'], 'sel': sel, 'mapping_order': order}
 
 
 def expected_assign(sup, src_assign, src_nodes, model):
